@@ -42,7 +42,8 @@ type c14Fault struct {
 }
 
 type c14Event struct {
-	K      string     `json:"k"` // msg | report | teardown
+	K      string     `json:"k"` // msg | report | teardown | reconnect
+	Now    bool       `json:"now"` // reconnect: re-establish the channel at once (else the next request does it)
 	Conn   int        `json:"conn"`
 	Hex    string     `json:"hex"`
 	Draws  []uint64   `json:"draws"`
@@ -652,6 +653,27 @@ func (w *c14World) doEvent(ev c14Event) (obs map[string]interface{}) {
 	case "teardown":
 		if c, ok := w.conns[ev.Conn]; ok {
 			run(func() { c.Shutdown() })
+		}
+	case "reconnect":
+		// the P4Runtime channel is lost (the plug-in's gRPC connection is closed, read the way its own re-connection reads
+		// it); UP4.tryConnect - called by every SendMsgToUPF and by keepTryingToConnect - sets up a new channel (a new
+		// P4rtClient and StreamChannel) against the same, still populated switch
+		w.up4.tryConnectMu.Lock()
+		c := w.up4.p4client
+		w.up4.tryConnectMu.Unlock()
+
+		if c != nil && c.conn != nil {
+			_ = c.conn.Close()
+		}
+
+		obs["connected_after_loss"] = w.u.isConnected()
+
+		if ev.Now {
+			run(func() {
+				if err := w.up4.tryConnect(); err != nil {
+					obs["reconnect_err"] = err.Error()
+				}
+			})
 		}
 	}
 
